@@ -104,6 +104,18 @@ func TestC02(t *testing.T) {
 		}
 		lo -= 3 * secNs
 		ts := GenBlockTimes(t, sched, lo, hi, 1, 14)
+		manyBlocks := 0
+		if rapid.IntRange(0, 19).Draw(t, "manyBlocks") == 0 {
+			// a long run at a regular cadence somewhere in the schedule: hundreds of blocks, each carrying the
+			// remainder of the one before
+			manyBlocks = rapid.IntRange(200, 900).Draw(t, "manyBlocksN")
+			step := []int64{secNs, 5 * secNs, 6*secNs + 100*msNs, 60 * secNs, 3600 * secNs, dayNs}[rapid.IntRange(0, 5).Draw(t, "manyBlocksStep")]
+			from := rapid.Int64Range(lo, hi).Draw(t, "manyBlocksFrom")
+			for i := 0; i < manyBlocks && from+int64(i)*step <= hi; i++ {
+				ts = append(ts, from+int64(i)*step)
+			}
+			sort.Slice(ts, func(i, j int) bool { return ts[i] < ts[j] })
+		}
 		lastMint := nsTime(lo - secNs)
 
 		viaGov := rapid.IntRange(0, 4).Draw(t, "installedByGovernance")
@@ -155,6 +167,9 @@ func TestC02(t *testing.T) {
 		classes := map[string]bool{}
 		if cfg.Unordered() {
 			classes["minters_listed_out_of_order"] = true
+		}
+		if manyBlocks > 0 && len(ts) >= 200 {
+			classes["run_of_200_or_more_blocks"] = true
 		}
 		insideMinting, crossings := false, 0
 		prevT := lo - secNs
